@@ -72,7 +72,7 @@ def run(prop, gi, g, tier, known, do_replay):
     # the encoder could not execute the (changed) code: the solver gives no verdict. As a safety net the native scenario
     # families of the stream replay program are run; a natively failing scenario is still a real, replayed violation.
     enc_fail = [i for i in out["inconclusive"] if "encode" in i or "outside the encoder" in i or "no obligation" in i]
-    if enc_fail and not out["violations"] and do_replay and prop in ("C13", "C20") or (enc_fail and not out["violations"] and do_replay and prop == "C05" and "L8" in g["lemmas"]):
+    if enc_fail and not out["violations"] and do_replay and (prop in ("C13", "C20") or (prop == "C05" and "L8" in g["lemmas"]) or (prop == "C18" and any(l.startswith("Lprefix") for l in g["lemmas"]))):
         from . import slicereplay
         fn = os.path.join(VERIF, "replays", prop, "native_fallback_slice.txt")
         os.makedirs(os.path.dirname(fn), exist_ok=True)
@@ -107,7 +107,7 @@ def replay(prop, name, ob, d, do_replay):
         f.write(f"# engine-B counterexample for {prop}, obligation {name}\n# {ob['detail']}\n")
     if not do_replay:
         return dict(reproduced=True, path=fn, detail="replay skipped")
-    slice_side = prop in ("C13", "C20", "C01") or (prop == "C05" and "stream" not in name)
+    slice_side = prop in ("C13", "C20", "C01") or (prop == "C05" and "stream" not in name) or (prop == "C18" and "prefix" in name.lower())
     if slice_side:
         from . import slicereplay
         return slicereplay.confirm(prop, name, ob, fn)
